@@ -86,7 +86,14 @@ def r_xpath_spell(ck: Checker) -> None:
                 if lf.outcome != "fall" or not any(isinstance(x, ast.For) and x is rec[0] for x in st) \
                         or not any(isinstance(x, ast.Expr) and x.value is sets[0] for x in st):
                     ok2 = False
-        (ck.holds if ok2 else ck.violation)("R-LEG-XPATH-SPELL", f, f.node, what, **({} if ok2 else {"construct": "_set_xpath: store / recursion over all children not recognised"}))
+        if ok2:
+            ck.holds("R-LEG-XPATH-SPELL", f, f.node, what)
+        elif not sets or not any(isinstance(c_, ast.Call) and dotted(c_.func) == "_set_xpath" for c_ in walk_body(f.node.body)):
+            ck.violation("R-LEG-XPATH-SPELL", f, f.node, what, construct="_set_xpath: the path is not stored / the children are not visited")
+        elif len(sets) == 1 and len(rec) == 1:
+            ck.violation("R-LEG-XPATH-SPELL", f, f.node, what, construct="_set_xpath: a non-raising path skips the store or the recursion over the children")
+        else:
+            raise Unsupported("_set_xpath: store / recursion over all children not recognised", f.node)
     g = ck.repo.func(LNODE, "AwareASTNode.calculate_xpath")
     body = strip_docstring(g.node.body)
     what = "calculate_xpath refuses non-roots, spells the root as '/@root[0]<Class>' and sets the path of every child subtree"
@@ -249,7 +256,14 @@ def r_legacy_match_head(ck: Checker) -> None:
     what = "legacy match: a '//' step tries every proper ancestor (node.ancestors()) with the same remaining path"
     ok = len(loops) == 1 and norm(loops[0].iter) == "node.ancestors()" and len(loops[0].body) == 1 and isinstance(loops[0].body[0], ast.If) \
         and norm(loops[0].body[0].test) == f"_match_node_xpath({norm(loops[0].target)}, elements)" and norm(loops[0].body[0].body[0]) == "return True"
-    (ck.holds if ok else ck.violation)("R-XP-ANYWHERE", f, f.node, what, **({} if ok else {"construct": "legacy _match_node_xpath: ancestor loop of the '//' step not recognised / wrong"}))
+    if ok:
+        ck.holds("R-XP-ANYWHERE", f, f.node, what)
+    elif not any("ancestors" in norm(x_) for x_ in ast.walk(f.node) if isinstance(x_, (ast.Call, ast.Attribute))):
+        ck.violation("R-XP-ANYWHERE", f, f.node, what, construct="legacy _match_node_xpath: the '//' step does not look at the ancestors at all")
+    elif len(loops) == 1 and "parent" in norm(loops[0].iter) and "ancestors" not in norm(loops[0].iter):
+        ck.violation("R-XP-ANYWHERE", f, f.node, what, construct=f"legacy _match_node_xpath: the '//' step iterates {norm(loops[0].iter)[:40]} (not every proper ancestor)")
+    else:
+        raise Unsupported("legacy _match_node_xpath: ancestor loop of the '//' step not recognised", f.node)
 
 
 def run(ck: Checker) -> None:
